@@ -403,3 +403,425 @@ Theorem C20_example_rename :
   end.
 Proof. exact ex_rename. Qed.
 Print Assumptions C20_example_rename.
+
+(** * C20x: the same for the complement-edge kind (BCDD) and the ZBDD kind
+
+    Models: DD/ConfigBcdd.v ([capply_op_g], [capply_ite_g]; [not] is a tag flip,
+    [capply_not]), DD/ConfigZbdd.v ([zapply_g] = union / intersection / difference,
+    [zapply_not_g], [zsymm_g], [zapply_op_g], [zapply_ite_g]); proofs in
+    DD/ConfigBcdd{Proofs,Cache,Indep}.v, DD/ConfigZbdd{Proofs,Ite,Cache,CacheIte,Indep}.v.
+    A configuration is (alloc, edge order, cache, sched) as above.
+
+    Reading the ZBDD statements: [ZDen s r P] = [r] exists in [s] and the list
+    [fam_of s r] (= [famz] with the standard fuel) has exactly the members
+    satisfying [P]; [zfam s r] = "is a member of [fam_of s r]"; [pbin] / [pop] /
+    [pite] / [pall] = the set expressions of the operators on such predicates
+    (DD/ZbddOpsProofs.v, DD/ZbddBoolProofs.v); [zview_of s r c] = [semz] with the
+    standard fuel = the Boolean view. *)
+From OxiVerif Require Import DD.CanonBcdd DD.ApplyBcdd DD.ApplyBcddProofs DD.ApplyBcddIte
+  DD.FamSpec DD.ZbddOps DD.ZbddOpsProofs DD.ZbddVarsProofs DD.ZbddBool DD.ZbddBoolProofs DD.ZbddEvalProofs DD.ZbddExamples
+  DD.ConfigInsert DD.ConfigBcdd DD.ConfigBcddProofs DD.ConfigBcddCache DD.ConfigBcddIndep
+  DD.ConfigZbdd DD.ConfigZbddProofs DD.ConfigZbddIte DD.ConfigZbddCache DD.ConfigZbddCacheIte DD.ConfigZbddIndep
+  DD.ConfigXExamples.
+
+(** ** BCDD (a): any two lossy caches and edge orders, same store and schedule: identical table and edge *)
+
+Theorem C20_bcdd_apply_op_cache_exact :
+  forall alloc, alloc_ok alloc ->
+  forall lt1 lt2 C1 C2 cget1 cadd1 cget2 cadd2, lossyC cget1 cadd1 -> lossyC cget2 cadd2 ->
+  forall o fuel x s (c1 : C1) (c2 : C2) f g,
+  BcOK s -> CacheOKC cget1 s c1 -> CacheOKC cget2 s c2 -> ref_ok s (eref f) -> ref_ok s (eref g) ->
+  S (nlevels s) <= fuel ->
+  match capply_op_g alloc lt1 C1 cget1 cadd1 fuel x s c1 o f g,
+        capply_op_g alloc lt2 C2 cget2 cadd2 fuel x s c2 o f g with
+  | Some (s1, _, r1), Some (s2, _, r2) => s1 = s2 /\ r1 = r2
+  | _, _ => False
+  end.
+Proof. exact capply_op_g_cache_exact. Qed.
+Print Assumptions C20_bcdd_apply_op_cache_exact.
+
+Theorem C20_bcdd_apply_ite_cache_exact :
+  forall alloc, alloc_ok alloc ->
+  forall lt1 lt2 C1 C2 cget1 cadd1 cget2 cadd2, lossyC cget1 cadd1 -> lossyC cget2 cadd2 ->
+  forall fuel x s (c1 : C1) (c2 : C2) f g h,
+  BcOK s -> CacheOKC cget1 s c1 -> CacheOKC cget2 s c2 ->
+  ref_ok s (eref f) -> ref_ok s (eref g) -> ref_ok s (eref h) -> S (nlevels s) <= fuel ->
+  match capply_ite_g alloc lt1 C1 cget1 cadd1 fuel x s c1 f g h,
+        capply_ite_g alloc lt2 C2 cget2 cadd2 fuel x s c2 f g h with
+  | Some (s1, _, r1), Some (s2, _, r2) => s1 = s2 /\ r1 = r2
+  | _, _ => False
+  end.
+Proof. exact capply_ite_g_cache_exact. Qed.
+Print Assumptions C20_bcdd_apply_ite_cache_exact.
+
+(** ** BCDD (b): the node count is a function of the value table, across two tables *)
+
+Theorem C20_bcdd_count_reach_semc : forall s1 s2, BcOK s1 -> BcOK s2 -> nlevels s1 = nlevels s2 ->
+  forall e1 e2, ref_ok s1 (eref e1) -> ref_ok s2 (eref e2) ->
+  (forall c0, bchoice c0 -> semc s1 (S (nlevels s1)) e1 c0 = semc s2 (S (nlevels s2)) e2 c0) ->
+  count_reach s1 e1 = count_reach s2 e2.
+Proof. exact count_reach_semc. Qed.
+Print Assumptions C20_bcdd_count_reach_semc.
+
+(** ** BCDD (a)+(b)+(c): one operation under two arbitrary configurations *)
+
+Theorem C20_bcdd_apply_op_config_indep :
+  forall alloc1, alloc_ok alloc1 -> forall lt1 C1 cget1 cadd1, lossyC cget1 cadd1 ->
+  forall alloc2, alloc_ok alloc2 -> forall lt2 C2 cget2 cadd2, lossyC cget2 cadd2 ->
+  forall o s (c1 : C1) (c2 : C2) f g x1 x2 fuel1 fuel2,
+  BcOK s -> CacheOKC cget1 s c1 -> CacheOKC cget2 s c2 -> ref_ok s (eref f) -> ref_ok s (eref g) ->
+  S (nlevels s) <= fuel1 -> S (nlevels s) <= fuel2 ->
+  exists s1 c1' r1 s2 c2' r2,
+    capply_op_g alloc1 lt1 C1 cget1 cadd1 fuel1 x1 s c1 o f g = Some (s1, c1', r1) /\
+    capply_op_g alloc2 lt2 C2 cget2 cadd2 fuel2 x2 s c2 o f g = Some (s2, c2', r2) /\
+    BcOK s1 /\ BcOK s2 /\ extends s s1 /\ extends s s2 /\
+    CacheOKC cget1 s1 c1' /\ CacheOKC cget2 s2 c2' /\
+    ref_ok s1 (eref r1) /\ ref_ok s2 (eref r2) /\
+    (forall c0, bchoice c0 -> exists v,
+       (exists a b, semc s (S (nlevels s)) f c0 = Some a /\ semc s (S (nlevels s)) g c0 = Some b /\
+                    v = eval_bop o a b) /\
+       semc s1 (S (nlevels s1)) r1 c0 = Some v /\ semc s2 (S (nlevels s2)) r2 c0 = Some v) /\
+    count_reach s1 r1 = count_reach s2 r2 /\
+    (forall r0, ref_ok s (eref r0) ->
+       (forall c0, bchoice c0 -> semc s (S (nlevels s)) r0 c0 = semc s1 (S (nlevels s1)) r1 c0) ->
+       s1 = s /\ s2 = s /\ r1 = r0 /\ r2 = r0).
+Proof. exact capply_op_g_config_indep. Qed.
+Print Assumptions C20_bcdd_apply_op_config_indep.
+
+Theorem C20_bcdd_apply_ite_config_indep :
+  forall alloc1, alloc_ok alloc1 -> forall lt1 C1 cget1 cadd1, lossyC cget1 cadd1 ->
+  forall alloc2, alloc_ok alloc2 -> forall lt2 C2 cget2 cadd2, lossyC cget2 cadd2 ->
+  forall s (c1 : C1) (c2 : C2) f g h x1 x2 fuel1 fuel2,
+  BcOK s -> CacheOKC cget1 s c1 -> CacheOKC cget2 s c2 ->
+  ref_ok s (eref f) -> ref_ok s (eref g) -> ref_ok s (eref h) ->
+  S (nlevels s) <= fuel1 -> S (nlevels s) <= fuel2 ->
+  exists s1 c1' r1 s2 c2' r2,
+    capply_ite_g alloc1 lt1 C1 cget1 cadd1 fuel1 x1 s c1 f g h = Some (s1, c1', r1) /\
+    capply_ite_g alloc2 lt2 C2 cget2 cadd2 fuel2 x2 s c2 f g h = Some (s2, c2', r2) /\
+    BcOK s1 /\ BcOK s2 /\ extends s s1 /\ extends s s2 /\
+    CacheOKC cget1 s1 c1' /\ CacheOKC cget2 s2 c2' /\
+    ref_ok s1 (eref r1) /\ ref_ok s2 (eref r2) /\
+    (forall c0, bchoice c0 -> exists v,
+       (exists a b d, semc s (S (nlevels s)) f c0 = Some a /\ semc s (S (nlevels s)) g c0 = Some b /\
+                      semc s (S (nlevels s)) h c0 = Some d /\ v = if a then b else d) /\
+       semc s1 (S (nlevels s1)) r1 c0 = Some v /\ semc s2 (S (nlevels s2)) r2 c0 = Some v) /\
+    count_reach s1 r1 = count_reach s2 r2 /\
+    (forall r0, ref_ok s (eref r0) ->
+       (forall c0, bchoice c0 -> semc s (S (nlevels s)) r0 c0 = semc s1 (S (nlevels s1)) r1 c0) ->
+       s1 = s /\ s2 = s /\ r1 = r0 /\ r2 = r0).
+Proof. exact capply_ite_g_config_indep. Qed.
+Print Assumptions C20_bcdd_apply_ite_config_indep.
+
+(** [not_edge] is a tag flip: it reads neither the store nor the cache *)
+Theorem C20_bcdd_apply_not_config_indep :
+  forall C1 (cget1 : C1 -> N -> list edge -> option edge) C2 (cget2 : C2 -> N -> list edge -> option edge)
+         s (c1 : C1) (c2 : C2) f,
+  BcOK s -> CacheOKC cget1 s c1 -> CacheOKC cget2 s c2 -> ref_ok s (eref f) ->
+  exists s1 c1' r1 s2 c2' r2,
+    capply_not C1 s c1 f = Some (s1, c1', r1) /\ capply_not C2 s c2 f = Some (s2, c2', r2) /\
+    BcOK s1 /\ BcOK s2 /\ extends s s1 /\ extends s s2 /\
+    CacheOKC cget1 s1 c1' /\ CacheOKC cget2 s2 c2' /\
+    ref_ok s1 (eref r1) /\ ref_ok s2 (eref r2) /\
+    (forall c0, bchoice c0 -> exists v,
+       (exists a, semc s (S (nlevels s)) f c0 = Some a /\ v = negb a) /\
+       semc s1 (S (nlevels s1)) r1 c0 = Some v /\ semc s2 (S (nlevels s2)) r2 c0 = Some v) /\
+    count_reach s1 r1 = count_reach s2 r2 /\
+    (forall r0, ref_ok s (eref r0) ->
+       (forall c0, bchoice c0 -> semc s (S (nlevels s)) r0 c0 = semc s1 (S (nlevels s1)) r1 c0) ->
+       s1 = s /\ s2 = s /\ r1 = r0 /\ r2 = r0).
+Proof. exact capply_not_config_indep. Qed.
+Print Assumptions C20_bcdd_apply_not_config_indep.
+
+(** (c) then-closure first with a shared cache versus else-closure first with a stale cache view *)
+Theorem C20_bcdd_apply_op_either_order : forall alloc, alloc_ok alloc ->
+  forall lt C cget cadd, lossyC cget cadd ->
+  forall o s (c : C) f g l r l' r' stale,
+  BcOK s -> CacheOKC cget s c -> ref_ok s (eref f) -> ref_ok s (eref g) ->
+  exists s1 c1' r1 s2 c2' r2,
+    capply_op_g alloc lt C cget cadd (S (nlevels s)) (SPar false false l r) s c o f g = Some (s1, c1', r1) /\
+    capply_op_g alloc lt C cget cadd (S (nlevels s)) (SPar true stale l' r') s c o f g = Some (s2, c2', r2) /\
+    BcOK s1 /\ BcOK s2 /\ extends s s1 /\ extends s s2 /\
+    CacheOKC cget s1 c1' /\ CacheOKC cget s2 c2' /\
+    ref_ok s1 (eref r1) /\ ref_ok s2 (eref r2) /\
+    (forall c0, bchoice c0 -> exists v,
+       (exists a b, semc s (S (nlevels s)) f c0 = Some a /\ semc s (S (nlevels s)) g c0 = Some b /\
+                    v = eval_bop o a b) /\
+       semc s1 (S (nlevels s1)) r1 c0 = Some v /\ semc s2 (S (nlevels s2)) r2 c0 = Some v) /\
+    count_reach s1 r1 = count_reach s2 r2 /\
+    (forall r0, ref_ok s (eref r0) ->
+       (forall c0, bchoice c0 -> semc s (S (nlevels s)) r0 c0 = semc s1 (S (nlevels s1)) r1 c0) ->
+       s1 = s /\ s2 = s /\ r1 = r0 /\ r2 = r0).
+Proof. exact capply_op_g_either_order. Qed.
+Print Assumptions C20_bcdd_apply_op_either_order.
+
+(** history independence across configurations *)
+Theorem C20_bcdd_apply_op_rerun :
+  forall alloc1, alloc_ok alloc1 -> forall lt1 C1 cget1 cadd1, lossyC cget1 cadd1 ->
+  forall alloc2, alloc_ok alloc2 -> forall lt2 C2 cget2 cadd2, lossyC cget2 cadd2 ->
+  forall o s (c1 : C1) f g x1 fuel1 s1 c1' r1,
+  BcOK s -> CacheOKC cget1 s c1 -> ref_ok s (eref f) -> ref_ok s (eref g) -> S (nlevels s) <= fuel1 ->
+  capply_op_g alloc1 lt1 C1 cget1 cadd1 fuel1 x1 s c1 o f g = Some (s1, c1', r1) ->
+  forall s2 (c2 : C2) x2 fuel2, BcOK s2 -> extends s1 s2 -> CacheOKC cget2 s2 c2 -> S (nlevels s2) <= fuel2 ->
+  exists c2', capply_op_g alloc2 lt2 C2 cget2 cadd2 fuel2 x2 s2 c2 o f g = Some (s2, c2', r1).
+Proof. exact capply_op_g_rerun. Qed.
+Print Assumptions C20_bcdd_apply_op_rerun.
+
+(** the configuration of C02 (DD/ApplyBcdd.v) is an instance *)
+Theorem C20_bcdd_seq_instance : forall lt C cget cadd fuel s (c : C),
+  (forall o f g, capply_op_g fresh_id lt C cget cadd fuel SSeq s c o f g = capply_op lt C cget cadd fuel s c o f g) /\
+  (forall f g h, capply_ite_g fresh_id lt C cget cadd fuel SSeq s c f g h = capply_ite lt C cget cadd fuel s c f g h) /\
+  (forall v neg, cmk_var_a fresh_id s v neg = cmk_var s v neg).
+Proof.
+  exact (fun lt C cget cadd fuel s c =>
+    conj (fun o f g => capply_op_g_seq lt C cget cadd fuel s c o f g)
+      (conj (fun f g h => capply_ite_g_seq lt C cget cadd fuel s c f g h) (cmk_var_a_fresh s))).
+Qed.
+Print Assumptions C20_bcdd_seq_instance.
+
+(** non-vacuity: on [ex_bcdd] two configurations that differ in everything give
+    other tables but the same value tables and node counts for all 8 operators;
+    same store + schedule, other cache + edge order: identical tables; a
+    15-call history on an empty 3-variable manager under three configurations *)
+Theorem C20_bcdd_example :
+  BcOK ex_bcdd /\ CacheOKC eac_get ex_bcdd [] /\ CacheOKC enc_get ex_bcdd tt /\ alloc_ok (alloc_skip 5) /\
+  (forall o, In o all_bops ->
+     c_obs (cA o) <> None /\ c_obs (cA o) = c_obs (cB o) /\ c_tab (cA o) = c_tab (cA' o)) /\
+  (c_tab (cA OAnd) <> c_tab (cB OAnd) /\ c_tab (cA OXor) <> c_tab (cB OXor)) /\
+  BcOK ex_cempty /\
+  (cobserve_all crunA <> None /\ cobserve_all crunA = cobserve_all crunB /\ cobserve_all crunA = cobserve_all crunC /\
+   cids_of crunA <> cids_of crunB /\ cids_of crunA <> cids_of crunC /\
+   length (cids_of crunA) = length (cids_of crunB)).
+Proof.
+  exact (conj ApplyBcddExamples.ex_bcdd_bcok (conj ApplyBcddExamples.ex_bcdd_cache_ok (conj ex_c_nocache_ok
+          (conj (alloc_skip_ok 5) (conj ex_c_configs (conj ex_c_tables_differ (conj ex_cempty_ok ex_cruns))))))).
+Qed.
+Print Assumptions C20_bcdd_example.
+
+(** ** ZBDD (a): any two lossy caches and operand orders, same store and schedule: identical table and edge *)
+
+Theorem C20_zbdd_setop_cache_exact :
+  forall alloc, alloc_ok alloc ->
+  forall gt1 gt2 C1 C2 cget1 cadd1 cget2 cadd2, zlossy C1 cget1 cadd1 -> zlossy C2 cget2 cadd2 ->
+  forall op fuel x s (c1 : C1) (c2 : C2) f g,
+  ZbddOK s -> ZCacheOKB C1 cget1 s c1 -> ZCacheOKB C2 cget2 s c2 -> ref_ok s f -> ref_ok s g ->
+  S (nlevels s) <= fuel ->
+  match zapply_g alloc gt1 C1 cget1 cadd1 fuel x s c1 op f g,
+        zapply_g alloc gt2 C2 cget2 cadd2 fuel x s c2 op f g with
+  | Some (s1, _, r1), Some (s2, _, r2) => s1 = s2 /\ r1 = r2
+  | _, _ => False
+  end.
+Proof. exact zapply_g_cache_exact. Qed.
+Print Assumptions C20_zbdd_setop_cache_exact.
+
+Theorem C20_zbdd_apply_not_cache_exact :
+  forall alloc, alloc_ok alloc ->
+  forall gt1 gt2 C1 C2 cget1 cadd1 cget2 cadd2, zlossy C1 cget1 cadd1 -> zlossy C2 cget2 cadd2 ->
+  forall fuel x s (c1 : C1) (c2 : C2) f,
+  ZbddOK s -> ZChainOK s -> ZCacheOKB C1 cget1 s c1 -> ZCacheOKB C2 cget2 s c2 -> ref_ok s f ->
+  S (nlevels s) <= fuel ->
+  match zapply_not_g alloc gt1 C1 cget1 cadd1 fuel x s c1 f,
+        zapply_not_g alloc gt2 C2 cget2 cadd2 fuel x s c2 f with
+  | Some (s1, _, r1), Some (s2, _, r2) => s1 = s2 /\ r1 = r2
+  | _, _ => False
+  end.
+Proof. exact zapply_not_g_cache_exact. Qed.
+Print Assumptions C20_zbdd_apply_not_cache_exact.
+
+Theorem C20_zbdd_apply_op_cache_exact :
+  forall alloc, alloc_ok alloc ->
+  forall gt1 gt2 C1 C2 cget1 cadd1 cget2 cadd2, zlossy C1 cget1 cadd1 -> zlossy C2 cget2 cadd2 ->
+  forall op fuel x s (c1 : C1) (c2 : C2) f g,
+  ZbddOK s -> ZChainOK s -> ZCacheOKB C1 cget1 s c1 -> ZCacheOKB C2 cget2 s c2 -> ref_ok s f -> ref_ok s g ->
+  S (nlevels s) <= fuel ->
+  match zapply_op_g alloc gt1 C1 cget1 cadd1 fuel x s c1 op f g,
+        zapply_op_g alloc gt2 C2 cget2 cadd2 fuel x s c2 op f g with
+  | Some (s1, _, r1), Some (s2, _, r2) => s1 = s2 /\ r1 = r2
+  | _, _ => False
+  end.
+Proof. exact zapply_op_g_cache_exact. Qed.
+Print Assumptions C20_zbdd_apply_op_cache_exact.
+
+Theorem C20_zbdd_apply_ite_cache_exact :
+  forall alloc, alloc_ok alloc ->
+  forall gt1 gt2 C1 C2 cget1 cadd1 cget2 cadd2, zlossy C1 cget1 cadd1 -> zlossy C2 cget2 cadd2 ->
+  forall fuel x s (c1 : C1) (c2 : C2) f g h,
+  ZbddOK s -> ZChainOK s -> ZCacheOKB C1 cget1 s c1 -> ZCacheOKB C2 cget2 s c2 ->
+  ref_ok s f -> ref_ok s g -> ref_ok s h -> S (nlevels s) <= fuel ->
+  match zapply_ite_g alloc gt1 C1 cget1 cadd1 fuel x s c1 f g h,
+        zapply_ite_g alloc gt2 C2 cget2 cadd2 fuel x s c2 f g h with
+  | Some (s1, _, r1), Some (s2, _, r2) => s1 = s2 /\ r1 = r2
+  | _, _ => False
+  end.
+Proof. exact zapply_ite_g_cache_exact. Qed.
+Print Assumptions C20_zbdd_apply_ite_cache_exact.
+
+(** ** ZBDD (b): the node count is a function of the family, across two tables *)
+
+Theorem C20_zbdd_count_reach_fam : forall s1 s2, ZbddOK s1 -> ZbddOK s2 -> nlevels s1 = nlevels s2 ->
+  forall r1 r2 F1 F2, ref_ok s1 r1 -> ref_ok s2 r2 ->
+  fam_of s1 r1 = Some F1 -> fam_of s2 r2 = Some F2 -> (forall S, In S F1 <-> In S F2) ->
+  count_reach s1 (E r1) = count_reach s2 (E r2).
+Proof. exact count_reach_fam. Qed.
+Print Assumptions C20_zbdd_count_reach_fam.
+
+(** ** ZBDD (a)+(b)+(c): one operation under two arbitrary configurations *)
+
+(** union / intersection / difference *)
+Theorem C20_zbdd_setop_config_indep :
+  forall alloc1, alloc_ok alloc1 -> forall gt1 C1 cget1 cadd1, zlossy C1 cget1 cadd1 ->
+  forall alloc2, alloc_ok alloc2 -> forall gt2 C2 cget2 cadd2, zlossy C2 cget2 cadd2 ->
+  forall op s (c1 : C1) (c2 : C2) f g x1 x2 fuel1 fuel2,
+  ZbddOK s -> ZCacheOKB C1 cget1 s c1 -> ZCacheOKB C2 cget2 s c2 -> ref_ok s f -> ref_ok s g ->
+  S (nlevels s) <= fuel1 -> S (nlevels s) <= fuel2 ->
+  exists s1 c1' r1 s2 c2' r2,
+    zapply_g alloc1 gt1 C1 cget1 cadd1 fuel1 x1 s c1 op f g = Some (s1, c1', r1) /\
+    zapply_g alloc2 gt2 C2 cget2 cadd2 fuel2 x2 s c2 op f g = Some (s2, c2', r2) /\
+    ZbddOK s1 /\ ZbddOK s2 /\ extends s s1 /\ extends s s2 /\
+    ZCacheOKB C1 cget1 s1 c1' /\ ZCacheOKB C2 cget2 s2 c2' /\
+    ref_ok s1 r1 /\ ref_ok s2 r2 /\
+    ZDen s1 r1 (pbin op (zfam s f) (zfam s g)) /\ ZDen s2 r2 (pbin op (zfam s f) (zfam s g)) /\
+    (forall c0, choice_ok s c0 -> exists v, True /\ zview_of s1 r1 c0 = Some v /\ zview_of s2 r2 c0 = Some v) /\
+    count_reach s1 (E r1) = count_reach s2 (E r2) /\
+    (forall r0, ref_ok s r0 ->
+       (forall c0, choice_ok s c0 -> zview_of s r0 c0 = zview_of s1 r1 c0) ->
+       r1 = r0 /\ r2 = r0 /\ (true = true -> s1 = s /\ s2 = s)).
+Proof. exact zapply_g_config_indep. Qed.
+Print Assumptions C20_zbdd_setop_config_indep.
+
+(** the eight Boolean operators; [bop_single op = false] for nand / nor / equiv
+    (two recursions: the table may keep nodes of the intermediate result) *)
+Theorem C20_zbdd_apply_op_config_indep :
+  forall alloc1, alloc_ok alloc1 -> forall gt1 C1 cget1 cadd1, zlossy C1 cget1 cadd1 ->
+  forall alloc2, alloc_ok alloc2 -> forall gt2 C2 cget2 cadd2, zlossy C2 cget2 cadd2 ->
+  forall op s (c1 : C1) (c2 : C2) f g x1 x2 fuel1 fuel2,
+  ZbddOK s -> ZChainOK s -> ZCacheOKB C1 cget1 s c1 -> ZCacheOKB C2 cget2 s c2 -> ref_ok s f -> ref_ok s g ->
+  S (nlevels s) <= fuel1 -> S (nlevels s) <= fuel2 ->
+  exists s1 c1' r1 s2 c2' r2,
+    zapply_op_g alloc1 gt1 C1 cget1 cadd1 fuel1 x1 s c1 op f g = Some (s1, c1', r1) /\
+    zapply_op_g alloc2 gt2 C2 cget2 cadd2 fuel2 x2 s c2 op f g = Some (s2, c2', r2) /\
+    ZbddOK s1 /\ ZbddOK s2 /\ extends s s1 /\ extends s s2 /\
+    ZCacheOKB C1 cget1 s1 c1' /\ ZCacheOKB C2 cget2 s2 c2' /\
+    ref_ok s1 r1 /\ ref_ok s2 r2 /\
+    ZDen s1 r1 (pop (nlevels s) op (zfam s f) (zfam s g)) /\ ZDen s2 r2 (pop (nlevels s) op (zfam s f) (zfam s g)) /\
+    (forall c0, choice_ok s c0 -> exists v,
+       (exists a b, zview_of s f c0 = Some a /\ zview_of s g c0 = Some b /\ v = eval_bop op a b) /\
+       zview_of s1 r1 c0 = Some v /\ zview_of s2 r2 c0 = Some v) /\
+    count_reach s1 (E r1) = count_reach s2 (E r2) /\
+    (forall r0, ref_ok s r0 ->
+       (forall c0, choice_ok s c0 -> zview_of s r0 c0 = zview_of s1 r1 c0) ->
+       r1 = r0 /\ r2 = r0 /\ (bop_single op = true -> s1 = s /\ s2 = s)).
+Proof. exact zapply_op_g_config_indep. Qed.
+Print Assumptions C20_zbdd_apply_op_config_indep.
+
+Theorem C20_zbdd_apply_not_config_indep :
+  forall alloc1, alloc_ok alloc1 -> forall gt1 C1 cget1 cadd1, zlossy C1 cget1 cadd1 ->
+  forall alloc2, alloc_ok alloc2 -> forall gt2 C2 cget2 cadd2, zlossy C2 cget2 cadd2 ->
+  forall s (c1 : C1) (c2 : C2) f x1 x2 fuel1 fuel2,
+  ZbddOK s -> ZChainOK s -> ZCacheOKB C1 cget1 s c1 -> ZCacheOKB C2 cget2 s c2 -> ref_ok s f ->
+  S (nlevels s) <= fuel1 -> S (nlevels s) <= fuel2 ->
+  exists s1 c1' r1 s2 c2' r2,
+    zapply_not_g alloc1 gt1 C1 cget1 cadd1 fuel1 x1 s c1 f = Some (s1, c1', r1) /\
+    zapply_not_g alloc2 gt2 C2 cget2 cadd2 fuel2 x2 s c2 f = Some (s2, c2', r2) /\
+    ZbddOK s1 /\ ZbddOK s2 /\ extends s s1 /\ extends s s2 /\
+    ZCacheOKB C1 cget1 s1 c1' /\ ZCacheOKB C2 cget2 s2 c2' /\
+    ref_ok s1 r1 /\ ref_ok s2 r2 /\
+    ZDen s1 r1 (pbin ZDiff (pall (nlevels s) 0) (zfam s f)) /\ ZDen s2 r2 (pbin ZDiff (pall (nlevels s) 0) (zfam s f)) /\
+    (forall c0, choice_ok s c0 -> exists v,
+       (exists a, zview_of s f c0 = Some a /\ v = negb a) /\
+       zview_of s1 r1 c0 = Some v /\ zview_of s2 r2 c0 = Some v) /\
+    count_reach s1 (E r1) = count_reach s2 (E r2) /\
+    (forall r0, ref_ok s r0 ->
+       (forall c0, choice_ok s c0 -> zview_of s r0 c0 = zview_of s1 r1 c0) ->
+       r1 = r0 /\ r2 = r0 /\ (true = true -> s1 = s /\ s2 = s)).
+Proof. exact zapply_not_g_config_indep. Qed.
+Print Assumptions C20_zbdd_apply_not_config_indep.
+
+Theorem C20_zbdd_apply_ite_config_indep :
+  forall alloc1, alloc_ok alloc1 -> forall gt1 C1 cget1 cadd1, zlossy C1 cget1 cadd1 ->
+  forall alloc2, alloc_ok alloc2 -> forall gt2 C2 cget2 cadd2, zlossy C2 cget2 cadd2 ->
+  forall s (c1 : C1) (c2 : C2) f g h x1 x2 fuel1 fuel2,
+  ZbddOK s -> ZChainOK s -> ZCacheOKB C1 cget1 s c1 -> ZCacheOKB C2 cget2 s c2 ->
+  ref_ok s f -> ref_ok s g -> ref_ok s h ->
+  S (nlevels s) <= fuel1 -> S (nlevels s) <= fuel2 ->
+  exists s1 c1' r1 s2 c2' r2,
+    zapply_ite_g alloc1 gt1 C1 cget1 cadd1 fuel1 x1 s c1 f g h = Some (s1, c1', r1) /\
+    zapply_ite_g alloc2 gt2 C2 cget2 cadd2 fuel2 x2 s c2 f g h = Some (s2, c2', r2) /\
+    ZbddOK s1 /\ ZbddOK s2 /\ extends s s1 /\ extends s s2 /\
+    ZCacheOKB C1 cget1 s1 c1' /\ ZCacheOKB C2 cget2 s2 c2' /\
+    ref_ok s1 r1 /\ ref_ok s2 r2 /\
+    ZDen s1 r1 (pite (zfam s f) (zfam s g) (zfam s h)) /\ ZDen s2 r2 (pite (zfam s f) (zfam s g) (zfam s h)) /\
+    (forall c0, choice_ok s c0 -> exists v,
+       (exists a b d, zview_of s f c0 = Some a /\ zview_of s g c0 = Some b /\ zview_of s h c0 = Some d /\
+                      v = if a then b else d) /\
+       zview_of s1 r1 c0 = Some v /\ zview_of s2 r2 c0 = Some v) /\
+    count_reach s1 (E r1) = count_reach s2 (E r2) /\
+    (forall r0, ref_ok s r0 ->
+       (forall c0, choice_ok s c0 -> zview_of s r0 c0 = zview_of s1 r1 c0) ->
+       r1 = r0 /\ r2 = r0 /\ (true = true -> s1 = s /\ s2 = s)).
+Proof. exact zapply_ite_g_config_indep. Qed.
+Print Assumptions C20_zbdd_apply_ite_config_indep.
+
+(** (c) hi-closure first with a shared cache versus lo-closure first with a stale cache view *)
+Theorem C20_zbdd_apply_op_either_order : forall alloc, alloc_ok alloc ->
+  forall gt C cget cadd, zlossy C cget cadd ->
+  forall op s (c : C) f g l r l' r' stale,
+  ZbddOK s -> ZChainOK s -> ZCacheOKB C cget s c -> ref_ok s f -> ref_ok s g ->
+  exists s1 c1' r1 s2 c2' r2,
+    zapply_op_g alloc gt C cget cadd (S (nlevels s)) (SPar false false l r) s c op f g = Some (s1, c1', r1) /\
+    zapply_op_g alloc gt C cget cadd (S (nlevels s)) (SPar true stale l' r') s c op f g = Some (s2, c2', r2) /\
+    ZbddOK s1 /\ ZbddOK s2 /\ extends s s1 /\ extends s s2 /\
+    ZCacheOKB C cget s1 c1' /\ ZCacheOKB C cget s2 c2' /\
+    ref_ok s1 r1 /\ ref_ok s2 r2 /\
+    ZDen s1 r1 (pop (nlevels s) op (zfam s f) (zfam s g)) /\ ZDen s2 r2 (pop (nlevels s) op (zfam s f) (zfam s g)) /\
+    (forall c0, choice_ok s c0 -> exists v,
+       (exists a b, zview_of s f c0 = Some a /\ zview_of s g c0 = Some b /\ v = eval_bop op a b) /\
+       zview_of s1 r1 c0 = Some v /\ zview_of s2 r2 c0 = Some v) /\
+    count_reach s1 (E r1) = count_reach s2 (E r2) /\
+    (forall r0, ref_ok s r0 ->
+       (forall c0, choice_ok s c0 -> zview_of s r0 c0 = zview_of s1 r1 c0) ->
+       r1 = r0 /\ r2 = r0 /\ (bop_single op = true -> s1 = s /\ s2 = s)).
+Proof. exact zapply_op_g_either_order. Qed.
+Print Assumptions C20_zbdd_apply_op_either_order.
+
+(** history independence across configurations *)
+Theorem C20_zbdd_apply_op_rerun :
+  forall alloc1, alloc_ok alloc1 -> forall gt1 C1 cget1 cadd1, zlossy C1 cget1 cadd1 ->
+  forall alloc2, alloc_ok alloc2 -> forall gt2 C2 cget2 cadd2, zlossy C2 cget2 cadd2 ->
+  forall op s (c1 : C1) f g x1 fuel1 s1 c1' r1,
+  ZbddOK s -> ZChainOK s -> ZCacheOKB C1 cget1 s c1 -> ref_ok s f -> ref_ok s g -> S (nlevels s) <= fuel1 ->
+  zapply_op_g alloc1 gt1 C1 cget1 cadd1 fuel1 x1 s c1 op f g = Some (s1, c1', r1) ->
+  forall s2 (c2 : C2) x2 fuel2, ZbddOK s2 -> extends s1 s2 -> ZCacheOKB C2 cget2 s2 c2 -> S (nlevels s2) <= fuel2 ->
+  exists s3 c2', zapply_op_g alloc2 gt2 C2 cget2 cadd2 fuel2 x2 s2 c2 op f g = Some (s3, c2', r1) /\
+    (bop_single op = true -> s3 = s2).
+Proof. exact zapply_op_g_rerun. Qed.
+Print Assumptions C20_zbdd_apply_op_rerun.
+
+(** the configuration of C09 / C02 (DD/ZbddOps.v, DD/ZbddBool.v) is an instance *)
+Theorem C20_zbdd_seq_instance : forall gt C cget cadd fuel s (c : C),
+  (forall op f g, zapply_g fresh_id gt C cget cadd fuel SSeq s c op f g = zapply gt C cget cadd fuel s c op f g) /\
+  (forall f, zapply_not_g fresh_id gt C cget cadd fuel SSeq s c f = zapply_not gt C cget cadd fuel s c f) /\
+  (forall op f g, zapply_op_g fresh_id gt C cget cadd fuel SSeq s c op f g = zapply_op gt C cget cadd fuel s c op f g) /\
+  (forall f g h, zapply_ite_g fresh_id gt C cget cadd fuel SSeq s c f g h = zapply_ite gt C cget cadd fuel s c f g h).
+Proof.
+  exact (fun gt C cget cadd fuel s c =>
+    conj (fun op f g => zapply_g_seq gt C cget cadd fuel s c op f g)
+      (conj (fun f => zapply_not_g_seq gt C cget cadd fuel s c f)
+        (conj (fun op f g => zapply_op_g_seq gt C cget cadd fuel s c op f g)
+              (fun f g h => zapply_ite_g_seq gt C cget cadd fuel s c f g h)))).
+Qed.
+Print Assumptions C20_zbdd_seq_instance.
+
+(** non-vacuity: on [ex_z4] (with its tautology chain) two configurations that
+    differ in everything give other tables but the same Boolean views and
+    node counts for all 8 operators and ite; same store + schedule, other
+    cache + operand order: identical tables *)
+Theorem C20_zbdd_example :
+  ZbddOK ex_z4 /\ ZChainOK ex_z4 /\ ZCacheOKB zacache zac_get ex_z4 [] /\ ZCacheOKB unit znc_get ex_z4 tt /\
+  (forall o, In o all_bops ->
+     z_obs (zA o) <> None /\ z_obs (zA o) = z_obs (zB o) /\ z_tab (zA o) = z_tab (zA' o)) /\
+  (z_tab (zA OXor) <> z_tab (zB OXor) /\ z_tab (zA ONand) <> z_tab (zB ONand)).
+Proof.
+  exact (conj ZbddBoolExamples.ex_z4_ok (conj ZbddBoolExamples.ex_z4_chain (conj ZbddBoolExamples.ex_z4_cache_ok
+          (conj ZbddBoolExamples.ex_z4_nocache_ok (conj ex_z_configs ex_z_tables_differ))))).
+Qed.
+Print Assumptions C20_zbdd_example.
